@@ -123,7 +123,7 @@ fn c43_unsigned_amount_round_trip() {
     std::mem::forget(back);
 }
 
-//@ prop=C43 tier=quick kind=hold
+//@ prop=C43 tier=thorough kind=hold
 //@ enc=gmsol_sdk::utils::fixed::signed_amount_to_decimal, unsigned_amount_to_decimal, decimal_to_amount, rescale_to_mantissa
 //@ bound=every i64 amount (including i64::MIN), every decimals 0..=28; unwind 31
 //@ stubs=alloc::fmt::format returns an empty String
@@ -150,6 +150,31 @@ fn c43_signed_amount_round_trip() {
     std::mem::forget(uback);
 }
 
+//@ prop=C43 tier=thorough kind=hold
+//@ enc=gmsol_sdk::utils::fixed::signed_fixed_to_decimal, decimal_to_value, decimal_to_signed_value, rescale_to_mantissa
+//@ bound=every i128 num with |num| <= 2^96-1, every decimals 0..=28; unwind 31
+//@ stubs=alloc::fmt::format returns an empty String
+//@ timeout=900
+#[kani::proof]
+#[kani::stub(alloc::fmt::format, fmt_format)]
+#[kani::unwind(31)]
+fn c43_unsigned_target_rejects_negative_value() {
+    let n: i128 = kani::any();
+    kani::assume(n.unsigned_abs() <= MAX_REPR);
+    let d: u8 = kani::any();
+    kani::assume(d <= 28);
+    let dec = signed_fixed_to_decimal(n, d).unwrap();
+    // the unsigned conversion of a negative value must be an error, not a wrapped or absolute integer
+    let uback = decimal_to_value(dec, d);
+    if n < 0 {
+        assert!(uback.is_err(), "C43: negative value converted to an unsigned integer");
+    } else {
+        assert!(matches!(uback, Ok(v) if v == n as u128), "C43: non-negative value does not round-trip");
+    }
+    kani::cover!(n == -1, "smallest negative value");
+    std::mem::forget(uback);
+}
+
 // ---------------------------------------------------------------------------------------------
 // No conversion panics, for every input.
 // ---------------------------------------------------------------------------------------------
@@ -169,8 +194,20 @@ fn c43_fixed_to_decimal_never_panics() {
     if let Some(dec) = r {
         // a Decimal is produced only with a valid scale, and never more decimals than asked for
         assert!(dec.scale() <= 28 && dec.scale() <= d as u32, "C43: invalid scale");
-        assert!(n <= MAX_REPR || dec.scale() < d as u32, "C43: value above 96 bits kept its full scale");
         assert!((dec.mantissa() == 0) == (n == 0), "C43: zero and non-zero confused");
+    }
+    if n > MAX_REPR {
+        // documented lossy region: the value keeps its 28 leading digits, i.e. `cut = ilog10(num) - 27`
+        // (1..=11) trailing digits and as many decimals are dropped; None exactly when fewer than `cut`
+        // decimals are available or more than 28 would remain
+        let cut = n.ilog10() - 27;
+        match r {
+            Some(dec) => {
+                assert!(d as u32 >= cut && dec.scale() == d as u32 - cut, "C43: scale is not decimals - dropped digits");
+                assert!(dec.mantissa() >= POW10[27] && dec.mantissa() < POW10[28], "C43: mantissa does not have 28 digits");
+            }
+            None => assert!((d as u32) < cut || d as u32 - cut > 28, "C43: representable 28-digit value reported as None"),
+        }
     }
     kani::cover!(r.is_some() && n > MAX_REPR, "value above 96 bits converted");
     kani::cover!(r.is_none() && n > MAX_REPR && d <= 28, "value above 96 bits with too few decimals reported as None");
@@ -209,6 +246,11 @@ fn c43_value_and_amount_to_decimal_never_panic() {
     if d > 47 {
         // documented: beyond 28 + 19 decimals nothing of a u64 is left
         assert!(da.mantissa() == 0, "C43: amount with more than 47 decimals must be zero");
+    } else if d > 28 {
+        // documented: divided by 10^(decimals - 28) at scale 28: zero exactly below that power of ten
+        assert!(da.scale() == 28, "C43: amount beyond 28 decimals must be at scale 28");
+        assert!((da.mantissa() == 0) == ((a as i128) < POW10[(d - 28) as usize]), "C43: amount beyond 28 decimals scaled by the wrong power of ten");
+        assert!(da.mantissa() <= a as i128, "C43: amount grew");
     }
     let sa: i64 = kani::any();
     let dsa = signed_amount_to_decimal(sa, d);
@@ -229,16 +271,8 @@ const FIT: [i128; 39] = {
     t
 };
 
-//@ prop=C43 tier=quick kind=hold
-//@ enc=gmsol_sdk::utils::fixed::{decimal_to_signed_value, rescale_to_mantissa}, rust_decimal::Decimal::rescale (ops::array::rescale, mul_by_10, div_by_u32), i128::checked_pow, i128::checked_mul
-//@ bound=every valid Decimal (any 96-bit mantissa, either sign, scale 0..=28) and every u8 decimals; unwind 31
-//@ stubs=alloc::fmt::format returns an empty String
-//@ timeout=900
-#[kani::proof]
-#[kani::stub(alloc::fmt::format, fmt_format)]
-#[kani::unwind(31)]
-fn c43_decimal_to_signed_value_any() {
-    let dec = any_decimal();
+/// `decimal_to_signed_value` on one Decimal and every u8 decimals, against the exact classification.
+fn from_direction(dec: Decimal, exact: bool) {
     let d: u8 = kani::any();
     let (m, s) = (dec.mantissa(), dec.scale());
     // never panics (Kani checks), and:
@@ -252,6 +286,10 @@ fn c43_decimal_to_signed_value_any() {
             Ok(v) => {
                 assert!(fits, "C43: overflowing value converted");
                 assert!((*v < 0) == (m < 0) && (*v == 0) == (m == 0), "C43: sign or zero-ness changed");
+                if exact && m != 0 {
+                    // the compensated product itself (fits: no overflow in the reference)
+                    assert!(*v == m * POW10[e as usize], "C43: result is not mantissa * 10^(decimals - scale)");
+                }
             }
             Err(_) => assert!(!fits, "C43: representable value rejected"),
         }
@@ -269,12 +307,83 @@ fn c43_decimal_to_signed_value_any() {
     std::mem::forget(r);
 }
 
+
+//@ prop=C43 tier=quick kind=hold
+//@ enc=gmsol_sdk::utils::fixed::{decimal_to_signed_value, rescale_to_mantissa}, rust_decimal::Decimal::rescale (ops::array::rescale, mul_by_10, div_by_u32), i128::checked_pow, i128::checked_mul
+//@ bound=every Decimal with a mantissa below 2^32 (either sign, scale 0..=28) and every u8 decimals; unwind 31. The full 96-bit mantissa range is c43_decimal_to_signed_value_any (thorough)
+//@ stubs=alloc::fmt::format returns an empty String
+//@ timeout=900
+#[kani::proof]
+#[kani::stub(alloc::fmt::format, fmt_format)]
+#[kani::unwind(31)]
+fn c43_decimal_to_signed_value_small_mantissa() {
+    let lo: u32 = kani::any();
+    let neg: bool = kani::any();
+    let scale: u8 = kani::any();
+    kani::assume(scale <= 28);
+    from_direction(Decimal::from_parts(lo, 0, 0, neg, scale as u32), false);
+}
+
+/// Exact value of the compensated product for an integer Decimal (scale 0) with a 32-bit mantissa and a
+/// concrete `decimals`: `rescale` stops after 19..=28 multiplications by ten (when the 96-bit mantissa
+/// would overflow) and the code multiplies by the remaining power of ten.
+fn compensation_exact(d: u8) {
+    let lo: u32 = kani::any();
+    let neg: bool = kani::any();
+    kani::assume(lo != 0);
+    let dec = Decimal::from_parts(lo, 0, 0, neg, 0);
+    let m = dec.mantissa();
+    let r = decimal_to_signed_value(dec, d);
+    let fits = m.abs() <= FIT[d as usize];
+    match &r {
+        Ok(v) => assert!(fits && *v == m * POW10[d as usize], "C43: result is not mantissa * 10^decimals"),
+        Err(_) => assert!(!fits, "C43: representable value rejected"),
+    }
+    std::mem::forget(r);
+}
+
+//@ prop=C43 tier=experimental kind=hold
+//@ enc=gmsol_sdk::utils::fixed::{decimal_to_signed_value, rescale_to_mantissa}, rust_decimal::Decimal::rescale, i128::checked_pow, i128::checked_mul
+//@ bound=every non-zero integer Decimal (scale 0) with |mantissa| < 2^32, decimals = 20 (the repo test test_rescale_truncation_is_compensated generalised to every 32-bit mantissa): exact value mantissa * 10^20; unwind 31. DOES NOT FINISH (900 s: equivalence of the 96-bit times-ten chain plus i128 product with one 128-bit constant multiplication); kept for reference, never selected
+//@ stubs=alloc::fmt::format returns an empty String
+//@ timeout=900
+#[kani::proof]
+#[kani::stub(alloc::fmt::format, fmt_format)]
+#[kani::unwind(31)]
+fn c43_compensation_exact_20() {
+    compensation_exact(20);
+}
+
+//@ prop=C43 tier=experimental kind=hold
+//@ enc=gmsol_sdk::utils::fixed::{decimal_to_signed_value, rescale_to_mantissa}, rust_decimal::Decimal::rescale, i128::checked_pow, i128::checked_mul
+//@ bound=every non-zero integer Decimal (scale 0) with |mantissa| < 2^32, decimals = 30 (beyond rust_decimal's maximum scale; overflow of i128 reachable): exact value or Err exactly on overflow; unwind 31. Not run to completion (see c43_compensation_exact_20)
+//@ stubs=alloc::fmt::format returns an empty String
+//@ timeout=3600
+#[kani::proof]
+#[kani::stub(alloc::fmt::format, fmt_format)]
+#[kani::unwind(31)]
+fn c43_compensation_exact_30() {
+    compensation_exact(30);
+}
+
+//@ prop=C43 tier=thorough kind=hold
+//@ enc=gmsol_sdk::utils::fixed::{decimal_to_signed_value, rescale_to_mantissa}, rust_decimal::Decimal::rescale (ops::array::rescale, mul_by_10, div_by_u32), i128::checked_pow, i128::checked_mul
+//@ bound=every valid Decimal (any 96-bit mantissa, either sign, scale 0..=28) and every u8 decimals; unwind 31
+//@ stubs=alloc::fmt::format returns an empty String
+//@ timeout=3600
+#[kani::proof]
+#[kani::stub(alloc::fmt::format, fmt_format)]
+#[kani::unwind(31)]
+fn c43_decimal_to_signed_value_any() {
+    from_direction(any_decimal(), false);
+}
+
 // ---------------------------------------------------------------------------------------------
 // By-design deviations from the literal property text (known findings): the strict clause asserted
 // ONLY inside the keyed region; expected to FAIL.
 // ---------------------------------------------------------------------------------------------
 
-//@ prop=C43 tier=quick kind=finding:c43_lossy_rescale
+//@ prop=C43 tier=thorough kind=finding:c43_lossy_rescale
 //@ enc=gmsol_sdk::utils::fixed::unsigned_fixed_to_decimal (convert_by_change_the_scale), decimal_to_value, rescale_to_mantissa
 //@ bound=region: u128 num > 2^96-1 with decimals 0..=28; strict clause "Some(d) => from(d) == num" (the code cuts num to its 28 leading digits instead of returning None); unwind 31
 //@ stubs=alloc::fmt::format returns an empty String
